@@ -14,13 +14,13 @@ def c01(tier, seed):
 
 
 def c02(tier, seed):
-    return combine(fam_list(tier, ['core_q', 'frac_q', 'split_q', 'split5_q', 'two_split_q'], ['core_t', 'split_t', 'events_q', 'sim_t']) + [trace_family(tier, seed)], 'covered',
+    return combine(fam_list(tier, ['core_q', 'frac_q', 'split_q', 'split5_q', 'split2_q', 'two_split_q'], ['core_t', 'split_t', 'events_q', 'sim_t']) + [trace_family(tier, seed), cli_family(tier)], 'covered',
                    'every cell ledger of the family; non-trivial = accepted (covered) ledgers, on which the three '
                    'conservation equalities are evaluated on the implementation\'s own report')
 
 
 def c03(tier, seed):
-    return combine(fam_list(tier, ['core_q', 'split_q', 'events_q', 'events_split_q'], ['core_t', 'split_t', 'events_t', 'events_split_t']) + [fx_family(tier), trace_family(tier, seed)], ['covered', 'multi_foreign_field'],
+    return combine(fam_list(tier, ['core_q', 'split_q', 'events_q', 'events_split_q'], ['core_t', 'split_t', 'events_t', 'events_split_t']) + [fx_family(tier), trace_family(tier, seed), cli_family(tier)], ['covered', 'multi_foreign_field'],
                    'every cell ledger of the family; non-trivial = accepted ledgers (legs + closing cost vs expenditure); '
                    'for ledgers with capital events TLC re-runs the specification on the observed apportionment')
 
